@@ -249,6 +249,11 @@ func (cl *cluster) probeTLS(name, addr string, cfg *tls.Config, items [][]byte, 
 			}
 		}
 		if len(acts) == 0 {
+			if t := cl.runnableServerTask(); t != nil {
+				cl.S.Logf("sched", "probe lets %s @%s run", t.Name, t.Where)
+				cl.S.Release(t)
+				continue
+			}
 			break
 		}
 		cl.S.Logf("sched", "probe %s", acts[0].Key)
